@@ -54,6 +54,9 @@ const (
 // boundedProgram builds the program of one family.  n is the family's size parameter.
 func boundedProgram(fam string, n int64) string {
 	rep := func(s string) string { return strings.Repeat(s, int(n)) }
+	if p, ok := boundedExtProgram(fam, n); ok { // library functions, builtins, macros: bounded_ext.go
+		return p
+	}
 	switch fam {
 	// --- non-terminating loops
 	case "loop-empty":
@@ -267,7 +270,7 @@ func boundedChild(args []string) int {
 func boundedQuickFamily(fam string) bool {
 	fam = strings.TrimPrefix(fam, "ctx-")
 	return strings.HasPrefix(fam, "degen-") || strings.HasPrefix(fam, "wrap-") || strings.HasPrefix(fam, "huge-") ||
-		strings.HasPrefix(fam, "loop-") || fam == "sleep"
+		strings.HasPrefix(fam, "loop-") || fam == "sleep" || boundedExtQuick(fam)
 }
 
 func boundedKillAfterFor(fam string) time.Duration {
@@ -506,6 +509,7 @@ func boundedGen(tier string, r *rng, emit func(string)) {
 		add("ctx-sleep", 10, 0, deadlines[i%len(deadlines)])
 		add("ctx-loop-empty", 0, pickD(), deadlines[(i+1)%len(deadlines)])
 		add("ctx-loop-incr", 0, 0, deadlines[(i+2)%len(deadlines)])
+		boundedExtGen(r, thorough, add) // library functions, builtins, macros: bounded_ext.go
 	}
 	// run: up to boundedWorkers children at a time
 	type job struct {
